@@ -226,12 +226,72 @@ def run(ctx):
         else:
             seqs = bnp.as_encoded_array(rows, encs[ename])
         seqs, rows = selected(seqs, rows, c)
+        exp = [[wd == pat for wd in windows(r, len(pat))] for r in rows]
+        PAT_ENC = {"ACGTEncoding": ["ACTGEncoding", "ACGTnEncoding"], "ACTGEncoding": ["ACGTEncoding"], "ACGTnEncoding": ["ACGTEncoding", "ACTGEncoding"], "ACUGEncoding": []}
+        if ename in PAT_ENC and PAT_ENC[ename] and set(pat) <= set("ACGT") and hash((pat, tuple(rows))) % 4 == 0:
+            # the pattern is handed over already encoded, in an alphabet that orders the letters differently (or is wider): occurrences of its TEXT, or a refusal
+            pe = PAT_ENC[ename][hash(pat) % len(PAT_ENC[ename])]
+            pobj = bnp.as_encoded_array(pat, encs[pe])
+            try:
+                res_ = bnp.match_string(seqs, pobj)
+                got_ = [[bool(x) for x in r] for r in res_.tolist()]
+            except Exception as e:
+                from bnpmon.ctx import originates_in_library
+                if not originates_in_library(e):
+                    raise
+                got_ = None
+                ctx.count("match_string_pattern_in_another_alphabet_refused")
+            if got_ is not None:
+                ctx.check("match_string", got_ == exp, "match_string/pattern-encoded-in-another-alphabet", "match_string(%s sequences, %r encoded as %s) marks %r, the text occurs at %r" % (ename, pat, pe, got_[:3], exp[:3]),
+                          dict(c, pattern_encoding=pe, got=got_[:3], expected=exp[:3]), (ename, tuple(rows), pat, pe))
+            ctx.count("match_string_pattern_in_another_alphabet")
         res = bnp.match_string(seqs, pat)
         sanitize(res, "match_string", c)
         got = [[bool(x) for x in r] for r in res.tolist()]
-        exp = [[wd == pat for wd in windows(r, len(pat))] for r in rows]
         nontriv = (ename, tuple(rows), pat) if (len(rows) >= 2 or len(rows[0]) > len(pat)) else None
         ctx.check("match_string", got == exp, "match_string/positions:%s" % wclass(len(pat)), "match_string differs from per-row window comparison", dict(c, got=got[:3], expected=exp[:3]), nontriv)
+
+    def case_edit_between_calls(c):
+        """the same array object handed to a window function, edited in place by the caller (one letter), and handed over again: the second result is
+        that of the letters the array holds now; the first result, still held, is that of the letters it held then"""
+        ename, rows, k, fn = c["enc"], list(c["rows"]), c["k"], c["fn2"]
+        alphabet = "ACGT" if ename == "ascii" else ALPHABETS[ename]
+        r_ = random.Random(c["seed"])
+        seqs = bnp.as_encoded_array(rows) if ename == "ascii" else bnp.as_encoded_array(rows, encs[ename])
+        pat = c["pattern"]
+
+        def run_fn():
+            if fn == "get_kmers":
+                return [list(map(int, x)) for x in bnp.get_kmers(seqs, k).raw().tolist()]
+            if fn == "count_kmers":
+                res = count_kmers(seqs, k)
+                return {l: int(n) for l, n in zip(res.alphabet, np.asarray(res.counts).ravel().tolist()) if n}
+            if fn == "get_minimizers":
+                return [list(map(int, x)) for x in bnp.get_minimizers(seqs, k, k + 2).raw().tolist()]
+            return [[bool(x) for x in row] for row in bnp.match_string(seqs, pat).tolist()]
+
+        def model(rws):
+            if fn == "get_kmers":
+                return [[kmer_code(x, alphabet) for x in windows(r, k)] for r in rws]
+            if fn == "count_kmers":
+                return dict(Counter(w for r in rws for w in windows(r, k)))
+            if fn == "get_minimizers":
+                return [[min(kmer_code(x, alphabet) for x in windows(wd, k)) for wd in windows(r, k + 2)] for r in rws]
+            return [[wd == pat for wd in windows(r, len(pat))] for r in rws]
+
+        first = run_fn()
+        i = r_.choice([q for q, x in enumerate(rows) if x])
+        j = r_.randrange(len(rows[i]))
+        new = r_.choice([a for a in alphabet if a != rows[i][j].upper()])
+        before = list(rows)
+        seqs[i, j] = new
+        rows[i] = rows[i][:j] + new + rows[i][j + 1:]
+        second = run_fn()
+        key = (ename, tuple(before), k, fn, i, j, new)
+        ctx.check(fn + ":again-after-edit", second == model([x.upper() for x in rows]), "%s/result-of-the-old-letters-after-an-in-place-edit" % fn, "%s on the same array after x[%d, %d] = %r gave %r, the letters now held give %r" % (fn, i, j, new, str(second)[:120], str(model([x.upper() for x in rows]))[:120]),
+                  dict(c, edited_rows=rows, got=str(second)[:400]), key)
+        ctx.check(fn + ":again-after-edit", first == model([x.upper() for x in before]), "%s/held-result-changed-by-an-edit-of-the-argument" % fn, "the first result of %s reads %r after the argument was edited" % (fn, str(first)[:120]), dict(c, got=str(first)[:400]), None)
+        ctx.count("edit_between_calls")
 
     def case_motif(c):
         rows, mat, alphabet, ename = c["rows"], c["matrix"], c["alphabet"], c["enc"]
@@ -301,6 +361,17 @@ def run(ctx):
                     rows.append("".join(rng.choice(alphabet) for _ in range(rng.randint(0, 3))) + rng.choice([miss, pat]) + "".join(rng.choice(alphabet) for _ in range(rng.randint(0, 3))))
             use = rng.choice([ename, "ascii"])
             ctx.run_case(case_match, {"fn": "match_string", "enc": use, "rows": rows, "pattern": pat, "select": gen_select(rows, w)})
+        elif kind < 0.84:
+            # the same object, edited in place between two calls
+            k2 = min(w, 6)
+            use = rng.choice([ename, "ascii"]) if set(alphabet) <= set("ACGT") or ename == "ACGTEncoding" else ename
+            al2 = "ACGT" if use == "ascii" else alphabet
+            rows2 = gen_rows(rng, al2, k2 + 2)
+            if any(rows2) and len(al2) ** (k2) < 2 ** 62:
+                pr = [x for x in rows2 if len(x) >= k2]
+                fns2 = ["get_kmers", "match_string"] + (["count_kmers"] if len(al2) ** k2 <= 5000 else []) + (["get_minimizers"] if use != "ascii" else [])     # minimizers ask for alphabet-encoded input
+                ctx.run_case(case_edit_between_calls, {"fn": "edit-between-calls", "fn2": rng.choice(fns2),
+                                                       "enc": use, "rows": rows2, "k": k2, "pattern": (rng.choice(pr)[:k2] if pr else al2[0] * k2), "seed": rng.randrange(2 ** 30)})
         elif kind < 0.93:
             w2 = min(w, 8)
             al = "ACGT"
